@@ -3,6 +3,7 @@ import Driver.Adm
 import Driver.Utl
 import Driver.Tm
 import Driver.Ses
+import Driver.Cors
 /- Line-protocol oracle: one op per input line, one canonical answer per
    output line. The first token selects the model family. -/
 open Driver
@@ -13,6 +14,7 @@ structure St where
   utl : UtlState := {}
   tm : TmWorld := {}
   ses : SesState := {}
+  cors : CorsState := {}
 
 def step (s : St) (line : String) : St × String :=
   match (line.trimAscii.toString.splitOn " ").filter (· ≠ "") with
@@ -20,7 +22,9 @@ def step (s : St) (line : String) : St × String :=
   | "adm" :: rest => let (a, o) := admStep s.adm rest; ({ s with adm := a }, o)
   | "utl" :: rest => let (a, o) := utlStep s.utl rest; ({ s with utl := a }, o)
   | "ses" :: rest => let (a, o) := sesStep s.ses false rest; ({ s with ses := a }, o)
+  | "sesw" :: rest => let (a, o) := seswStep s.ses rest; ({ s with ses := a }, o)
   | "ses+" :: rest => let (a, o) := sesStep s.ses true rest; ({ s with ses := a }, o)
+  | "cors" :: rest => let (a, o) := corsStep s.cors rest; ({ s with cors := a }, o)
   | "tm" :: rest => let (a, o) := tmStep s.tm rest; ({ s with tm := a }, o)
   | "yeast" :: rest => let (a, o) := yeastStep s.utl rest; ({ s with utl := a }, o)
   | _ => (s, "bad-op")
